@@ -472,3 +472,19 @@ def expand_places(node, lets, depth=0):
     if node.get("k") == "path" and (node.get("res") or {}).get("dk") == "Local" and node["res"].get("id") in lets and depth < 4:
         return expand_places(lets[node["res"]["id"]], lets, depth + 1)
     return {k: expand_places(v, lets, depth) for k, v in node.items()}
+
+
+def pure_lets(h):
+    """{binding id: initialiser} for immutable `let x = <side-effect-free expression over variables, fields, constants and
+    arithmetic>;` (`let block_id = i + 1;`): x stands for that expression"""
+    from inline import _place_like
+    out = {}
+    for l in find_all(h["body"], lambda z: z.get("k") == "let" and isinstance(z.get("pat"), dict) and z["pat"].get("k") == "bind" and not z["pat"].get("sub") and z.get("init") is not None and z.get("els") is None):
+        if "Mut" in str(l["pat"].get("mode", "")).split(",")[-1]:
+            continue
+        e = l["init"]
+        while isinstance(e, dict) and e.get("k") in ("use", "paren", "cast"):
+            e = e.get("e")
+        if _place_like(e) and not (isinstance(e, dict) and e.get("k") == "lit"):
+            out[l["pat"]["id"]] = l["init"]
+    return out
